@@ -1,9 +1,55 @@
-(* C06 — proofs. *)
-From Coq Require Import List NArith Bool Arith Lia.
+(* C06 — main results assembled from TokProofs / ParseProofs / ImageProofs / ValidateProofs. *)
+From Coq Require Import List NArith Bool Arith Lia String.
 From Verif.Common Require Import Labels.
-From Verif.C06 Require Import Model Spec.
+From Verif.C06 Require Import Model Spec TokProofs ParseProofs ImageProofs ValidateProofs.
 Import ListNotations.
 Open Scope N_scope.
+
+(* no negation directly under a negation *)
+Fixpoint nn_free (a : ast) : bool :=
+  match a with
+  | SNot x => negb (is_not x) && nn_free x
+  | SAnd xs | SOr xs => forallb nn_free xs
+  | _ => true
+  end.
+
+Lemma forallb_mp2 : forall (g h k : ast -> bool) xs,
+  Forall (fun x => g x = true -> h x = true -> k x = true) xs ->
+  forallb g xs = true -> forallb h xs = true -> forallb k xs = true.
+Proof.
+  intros g h k xs HF. induction HF as [|x xs Hx HF IH]; simpl; intros G Hh; auto.
+  apply andb_true_iff in G. destruct G. apply andb_true_iff in Hh. destruct Hh.
+  rewrite Hx, IH; auto.
+Qed.
+
+Lemma wfb_pinned : forall a, wfb true a = true -> nn_free a = true -> wfb false a = true.
+Proof.
+  induction a using ast_ind_nested; cbn [wfb nn_free]; intros W N; auto.
+  - apply andb_true_iff in N. destruct N as [N1 N2]. apply andb_true_iff in W. destruct W as [_ W].
+    rewrite N1. rewrite IHa; auto.
+  - apply andb_true_iff in W. destruct W as [W1 W2]. rewrite W1. simpl.
+    apply (forallb_mp2 (wfb true) nn_free (wfb false) xs H W2 N).
+  - apply andb_true_iff in W. destruct W as [W1 W2]. rewrite W1. simpl.
+    apply (forallb_mp2 (wfb true) nn_free (wfb false) xs H W2 N).
+Qed.
+
+(* ---- print/parse round trip ---- *)
+
+(* repaired printer: every parsed selector prints to a text that parses to the IDENTICAL AST *)
+Lemma roundtrip_fixed : forall s a, parse s = Ok a -> parse (to_string true a) = Ok a.
+Proof. intros s a H. apply parse_to_string. eapply parse_wf; eauto. Qed.
+
+(* pinned printer: the same, provided the AST has no negation directly under a negation *)
+Lemma roundtrip_pinned : forall s a, parse s = Ok a -> nn_free a = true -> parse (to_string false a) = Ok a.
+Proof. intros s a H N. apply parse_to_string. apply wfb_pinned; auto. eapply parse_wf; eauto. Qed.
+
+Lemma print_parse_fixed : forall s, roundtrip_ok parse (to_string true) s.
+Proof. intros s a H. exists a. split; [eapply roundtrip_fixed; eauto|]. split; auto. Qed.
+
+Lemma print_parse_pinned_partial : forall s a, parse s = Ok a -> nn_free a = true ->
+  exists a', parse (to_string false a) = Ok a' /\ to_string false a' = to_string false a
+             /\ (forall L : labels, eval a' L = eval a L).
+Proof. intros s a H N. exists a. split; [eapply roundtrip_pinned; eauto|]. split; auto. Qed.
 
 (* The pinned printer (pn = false) does NOT round-trip: "!(!has(a))" parses to Not(Not(Has a)), prints as
    "!!has(a)", which parses to Has a and prints as "has(a)". *)
@@ -15,3 +61,79 @@ Proof.
   exists dneg_witness, (SNot (SNot (SHas [97]))), (SHas [97]).
   split; [vm_compute; reflexivity|]. split; [vm_compute; reflexivity|]. vm_compute. discriminate.
 Qed.
+
+Lemma idempotent_refuted_pinned : exists s t, canon false s = Ok t /\ canon false t <> Ok t.
+Proof. exists dneg_witness, [33; 33; 104; 97; 115; 40; 97; 41]. split; [vm_compute; reflexivity|]. vm_compute. discriminate. Qed.
+
+(* ---- canonical form idempotent ---- *)
+
+Lemma canon_idempotent_fixed : forall s, canonical_idempotent (canon true) s.
+Proof.
+  intros s t H. unfold canon in *. destruct (parse s) as [a| |] eqn:E; try discriminate. inversion H; subst.
+  rewrite (roundtrip_fixed s a E). reflexivity.
+Qed.
+
+Lemma canon_idempotent_pinned_partial : forall s a, parse s = Ok a -> nn_free a = true ->
+  canon false (to_string false a) = Ok (to_string false a).
+Proof. intros s a E N. unfold canon. rewrite (roundtrip_pinned s a E N). reflexivity. Qed.
+
+(* ---- UID ---- *)
+
+Section UIDProofs.
+  Variable H : bytes -> bytes.
+
+  Lemma same_uid_fixed : forall s, same_uid parse (to_string true) (uid H true) s.
+  Proof. intros s a a' E1 E2. rewrite (roundtrip_fixed s a E1) in E2. inversion E2; reflexivity. Qed.
+
+  Lemma same_uid_pinned_partial : forall s a a', parse s = Ok a -> nn_free a = true ->
+    parse (to_string false a) = Ok a' -> uid H false a' = uid H false a.
+  Proof. intros s a a' E1 N E2. rewrite (roundtrip_pinned s a E1 N) in E2. inversion E2; reflexivity. Qed.
+
+  (* ---- the oracle accepts every run of the (repaired) model ---- *)
+
+  Definition model_case (pn : bool) (s : bytes) (maps : list labels) : case :=
+    match parse s with
+    | Ok a =>
+        let t := to_string pn a in
+        match parse t with
+        | Ok a' => {| c_pn := pn; c_input := s; c_maps := maps; c_accept := true; c_validate := is_ok (validate s);
+                      c_text := t; c_evals := map (eval a) maps; c_uid_ok := true;
+                      c_re_accept := true; c_re_text := to_string pn a'; c_re_evals := map (eval a') maps;
+                      c_re_uid_same := bytes_eqb (uid H pn a') (uid H pn a) |}
+        | _ => {| c_pn := pn; c_input := s; c_maps := maps; c_accept := true; c_validate := is_ok (validate s);
+                  c_text := t; c_evals := map (eval a) maps; c_uid_ok := true;
+                  c_re_accept := false; c_re_text := []; c_re_evals := []; c_re_uid_same := false |}
+        end
+    | _ => {| c_pn := pn; c_input := s; c_maps := maps; c_accept := false; c_validate := is_ok (validate s);
+              c_text := []; c_evals := []; c_uid_ok := false;
+              c_re_accept := false; c_re_text := []; c_re_evals := []; c_re_uid_same := false |}
+    end.
+
+  Lemma bools_eqb_refl : forall x, bools_eqb x x = true.
+  Proof. induction x as [|[] x IH]; simpl; auto. Qed.
+
+  Lemma model_meets_spec_fixed : forall s maps, ok_case (model_case true s maps) = true.
+  Proof.
+    intros s maps. unfold model_case. rewrite validate_parse.
+    destruct (parse s) as [a| |] eqn:E; try reflexivity.
+    rewrite (roundtrip_fixed s a E). unfold ok_case. cbn.
+    rewrite !bytes_eqb_refl, bools_eqb_refl. reflexivity.
+  Qed.
+
+  Lemma model_meets_spec_pinned_partial : forall s maps a, parse s = Ok a -> nn_free a = true ->
+    ok_case (model_case false s maps) = true.
+  Proof.
+    intros s maps a E N. unfold model_case. rewrite validate_parse. rewrite E.
+    rewrite (roundtrip_pinned s a E N). unfold ok_case. cbn.
+    rewrite !bytes_eqb_refl, bools_eqb_refl. reflexivity.
+  Qed.
+End UIDProofs.
+
+(* ---- non-vacuity: a parsed selector with every node type, nested ---- *)
+Definition ex_input : bytes := Eval compute in
+  b "!has( in ) && (a notin{'y', ""x"",'x',} || !(not starts  with ""it's"" && all())) || global( ) && b endswith""q"" && c contains '' && d != 'z' && e in {}"%string.
+Definition ex_ast : ast := Eval vm_compute in match parse ex_input with Ok a => a | _ => SAll end.
+
+Lemma ex_parses : parse ex_input = Ok ex_ast /\ nn_free ex_ast = true /\ (10 <= ast_size ex_ast)%nat
+                  /\ to_string false ex_ast <> ex_input.
+Proof. split; [vm_compute; reflexivity|]. split; [vm_compute; reflexivity|]. split; [vm_compute; lia|]. vm_compute. discriminate. Qed.
